@@ -16,10 +16,11 @@ Proof.
   rewrite IH. destruct x; cbn [asn4_values process_cap].
   - (* ASN4 *) cbn [k_asn resolve_as]. unfold AS_TRANS.
     destruct (k_asn k =? 23456) eqn:E; [reflexivity|]. apply resolve_as_fixed. exact E.
-  - destruct (negb (safi =? 1)); [reflexivity|]. destruct ((afi =? 1) && negb (c_mp4 c)); [reflexivity|].
+  - destruct (negb (safi =? 1)); [reflexivity|]. destruct ((afi =? 1) && negb (mp4_flag c)); [reflexivity|].
     destruct (fam_cfg c afi); reflexivity.
   - destruct (negb (safi =? 1) || negb (fam_cfg c afi)); reflexivity.
   - destruct (negb (role_enabled c)); reflexivity.
+  - reflexivity.
   - reflexivity.
 Qed.
 
@@ -43,13 +44,14 @@ Proof.
   intros c l. induction l as [|x l IH]; intros k He; cbn [fold_left role_values]; [reflexivity|].
   rewrite (IH _ He). destruct x; cbn [role_values process_cap].
   - reflexivity.
-  - destruct (negb (safi =? 1)); [reflexivity|]. destruct ((afi =? 1) && negb (c_mp4 c)); [reflexivity|].
+  - destruct (negb (safi =? 1)); [reflexivity|]. destruct ((afi =? 1) && negb (mp4_flag c)); [reflexivity|].
     destruct (fam_cfg c afi); [|reflexivity]. unfold set_mp. destruct (afi =? 1); reflexivity.
   - destruct (negb (safi =? 1) || negb (fam_cfg c afi)); [reflexivity|].
     cbn. unfold set_tx, set_rx.
     destruct (((sr =? 1) || (sr =? 3)) && cfg_send c afi); destruct (((sr =? 2) || (sr =? 3)) && cfg_recv c afi);
       destruct (afi =? 1); reflexivity.
   - rewrite He. cbn. reflexivity.
+  - reflexivity.
   - reflexivity.
 Qed.
 
@@ -59,13 +61,14 @@ Proof.
   intros c l. induction l as [|x l IH]; intros k He; cbn [fold_left]; [reflexivity|].
   rewrite (IH _ He). destruct x; cbn [process_cap].
   - reflexivity.
-  - destruct (negb (safi =? 1)); [reflexivity|]. destruct ((afi =? 1) && negb (c_mp4 c)); [reflexivity|].
+  - destruct (negb (safi =? 1)); [reflexivity|]. destruct ((afi =? 1) && negb (mp4_flag c)); [reflexivity|].
     destruct (fam_cfg c afi); [|reflexivity]. unfold set_mp. destruct (afi =? 1); reflexivity.
   - destruct (negb (safi =? 1) || negb (fam_cfg c afi)); [reflexivity|].
     cbn. unfold set_tx, set_rx.
     destruct (((sr =? 1) || (sr =? 3)) && cfg_send c afi); destruct (((sr =? 2) || (sr =? 3)) && cfg_recv c afi);
       destruct (afi =? 1); reflexivity.
   - rewrite He. reflexivity.
+  - reflexivity.
   - reflexivity.
 Qed.
 
@@ -206,7 +209,7 @@ Qed.
 
 Lemma decode_open_inv : forall m o, decode m = DOpen o -> m = MOpen o.
 Proof.
-  intros m o H. destruct m as [ | o' | ann wd | c0 s0 | mk len typ avail | n | ]; cbn in H; try discriminate.
+  intros m o H. destruct m as [ | o' | ann wd | pr pb pv | c0 s0 | mk len typ avail | n | ]; cbn in H; try discriminate.
   - destruct (validate_open o'); [discriminate | inversion H; reflexivity].
   - destruct (notification_valid c0 s0); discriminate.
   - destruct (decode_header mk len typ); [discriminate|].
@@ -233,8 +236,8 @@ Proof.
     subst att. clear Hatt. destruct (Hconn eq_refl) as [b Hb]. subst cn. clear Hconn.
     destruct e as [code|br|ex| | | |m].
     1-6: exfalso; revert Hto; rdx; repeat (break_match; rdx); discriminate.
-    destruct m as [ | o | ann wd | c0 s0 | mk len typ avail | n | ].
-    1,3-7: exfalso; revert Hto; rdx; repeat (break_match; rdx); try discriminate;
+    destruct m as [ | o | ann wd | pr pb pv | c0 s0 | mk len typ avail | n | ].
+    1,3-8: exfalso; revert Hto; rdx; repeat (break_match; rdx); try discriminate;
            try (exfalso; eapply frame_of_no_panic; eassumption);
            try (match goal with H : decode _ = DOpen _ |- _ => apply decode_open_inv in H; discriminate end).
     exists o. split; [reflexivity|]. split; [reflexivity|].
